@@ -340,11 +340,21 @@ def exhaustive_defs(nmax):
                                           allow_partial=True))
 
 
+def exhaustive_complete_defs(nmax):
+    for n in range(1, nmax + 1):
+        for tgt in itertools.product(range(n), repeat=2 * n):
+            trans = {q: {a: tgt[2 * q + j] for j, a in enumerate("ab")} for q in range(n)}
+            for fin in itertools.product([0, 1], repeat=n):
+                yield ("exhaustive_complete", dict(states=set(range(n)), input_symbols={"a", "b"}, transitions=trans,
+                                                   initial_state=0, final_states={q for q in range(n) if fin[q]},
+                                                   allow_partial=False))
+
+
 def run(ctx):
     ctx.rule = RULE
     rng = ctx.rng
     check_defs(ctx, corner_defs())
-    n = ctx.n(700, 12000)
+    n = ctx.n(700, 40000)
     stream = []
     for i in range(n):
         r = i % 4
@@ -367,10 +377,13 @@ def run(ctx):
     if ctx.tier == "thorough":
         for ch in chunks(exhaustive_defs(3), 400):
             check_defs(ctx, ch)
+        for ch in chunks(exhaustive_complete_defs(3), 400):
+            check_defs(ctx, ch)
         ctx.exhaustive = True
         ctx.exhaustive_scope = ("all partial DFAs with 1-3 states {0..n-1} over {a,b}, initial state 0 (every DFA of that size "
                                 "is isomorphic to one of them), every transition table with optional entries and every final set: "
-                                "8 + 324 + 32768 automata, each through the five calls")
+                                "8 + 324 + 32768 automata; plus the same tables without missing entries declared complete (allow_partial=False): "
+                                "2 + 64 + 5832 automata; each through the five calls and minify().minify()")
 
 
 def replay(ctx, case):
